@@ -338,6 +338,39 @@ fn arb_domain_value(numbers: BoxedStrategy<String>, dups: bool) -> BoxedStrategy
 	}
 }
 
+/// H_after_histories: a duplicate-free object reached through a history of C06 operations (duplicates pushed, then removed).
+pub fn after_history_case(ops: &[super::c06::Op], sel: u16) -> Outcome {
+	let universe = ["a", "\u{e000}", "\u{10000}", "c"];
+	let (mut obj, mut model) = match super::c06::run_history(ops, &universe, false) {
+		Ok(x) => x,
+		// an operation that misbehaves is C06's business; this family only needs *some* object with a history
+		Err(m) => return Outcome::fail(format!("SKIP: the operation history did not produce the modelled object (C06's business) [{m}]")),
+	};
+	// make the final object duplicate-free by position removals: of each duplicated key keep the first (bit clear) or the last (bit set) occurrence
+	let mut removed = 0;
+	let mut bit = 0;
+	loop {
+		let dup = (0..model.len()).find_map(|i| (i + 1..model.len()).rev().find(|&j| model[j].0 == model[i].0).map(|j| (i, j)));
+		let Some((i, j)) = dup else { break };
+		let at = if (sel >> (bit % 16)) & 1 == 0 { j } else { i };
+		bit += 1;
+		obj.remove_at(at);
+		model.remove(at);
+		removed += 1;
+	}
+	let got: Vec<(String, RefValue)> = obj.iter().map(|e| (e.key.as_str().to_string(), RefValue::from_value(&e.value))).collect();
+	if got != model {
+		return Outcome::fail("SKIP: remove_at did not produce the modelled object (C06's business)".into());
+	}
+	let had_removal = removed > 0 || ops.iter().any(|o| matches!(o, super::c06::Op::Remove(..) | super::c06::Op::RemoveAt(_) | super::c06::Op::RemoveUnique(_) | super::c06::Op::Insert(..) | super::c06::Op::InsertFront(..)));
+	let n = model.len();
+	let (v, value) = if sel & 0x8000 != 0 { (RefValue::Arr(vec![RefValue::Obj(model)]), Value::Array(vec![Value::Object(obj)])) } else { (RefValue::Obj(model), Value::Object(obj)) };
+	match into_from_value(&v, value) {
+		Ok(_) => Outcome::ok(had_removal && n >= 1, vec![if removed > 0 { "duplicates_removed_at_the_end" } else { "duplicate_free_already" }]),
+		Err((m, sig)) => Outcome { verdict: Err((m, sig.map(|x| x.to_string()))), nontrivial: false, classes: vec![] },
+	}
+}
+
 pub fn run(ctx: &mut Ctx) {
 	if ctx.wants("J_serde_json_values") {
 		let n = ctx.pick(250_000, 1_500_000);
@@ -349,6 +382,21 @@ pub fn run(ctx: &mut Ctx) {
 		let n = ctx.pick(250_000, 1_500_000);
 		let fam = Fam::new("S_json_syntax_values_in_domain", "proptest: json-syntax values of the stated domain (duplicate-free; numbers = 64-bit integers or finite doubles in arbitrary spellings): from_serde_json(into_serde_json(v)) equals v up to entry order and number spelling (same integer or same double); same attribution rule for the open finding; non-trivial = a non-integer number and an object with >= 2 keys", false);
 		let fam = run_proptest(ctx, fam, n, || arb_domain_value(arb_domain_number(), false), |v| outcome(into_from(v)), |v| json!({"value": v.encode()}));
+		ctx.add(fam);
+	}
+	if ctx.wants("H_after_histories") {
+		let n = ctx.pick(20_000, 300_000);
+		let keys: Vec<String> = vec!["a".into(), "\u{e000}".into(), "\u{10000}".into()];
+		let fam = Fam::new("H_after_histories", "proptest: a duplicate-free object reached through a random history of C06 operations over 3 keys (duplicates pushed and later removed by key / position / iterator / insert collapse, sorts, canonicalizations, bulk rebuilds, clones; remaining duplicates removed by position at the end), bare or inside an array: from_serde_json(into_serde_json(v)) equals v up to entry order and number spelling; non-trivial = the history contains a removal and the final object is not empty", false);
+		let ks = keys.clone();
+		let fam = run_proptest(
+			ctx,
+			fam,
+			n,
+			move || (proptest::collection::vec(super::c06::arb_op(ks.clone(), true), 2..40), any::<u16>()),
+			|(ops, sel)| after_history_case(ops, *sel),
+			|(ops, sel)| { let mut j = super::c06::ops_json(ops); j["sel"] = json!(sel); j },
+		);
 		ctx.add(fam);
 	}
 	if ctx.wants("U_unrestricted_no_panic") {
@@ -383,6 +431,13 @@ pub fn run(ctx: &mut Ctx) {
 }
 
 pub fn replay(family: &str, case: &J) -> Result<(), String> {
+	if family == "H_after_histories" {
+		let ops: Vec<super::c06::Op> = case["ops"].as_array().ok_or("bad case")?.iter().map(super::c06::dec_op).collect();
+		return match after_history_case(&ops, case["sel"].as_u64().unwrap_or(0) as u16).verdict {
+			Ok(()) => Ok(()),
+			Err((m, _)) => Err(m),
+		};
+	}
 	let r = if let Some(j) = case.get("serde_json") {
 		from_into(j)
 	} else {
